@@ -13,16 +13,21 @@ package core
 // connErr is DEFINED as the result of IsConnectionError (defines clause); circuitOpen is the class of
 // "endpoint skipped because its circuit is open" errors named by the property statement; finalErr tags the
 // errors built by buildFinalError.
-//@ spec func connErr(e error) bool
+//@ spec func connText(s string) bool = contains(s, "connection refused") || contains(s, "connection reset") || contains(s, "no such host") || contains(s, "network is unreachable") || contains(s, "no route to host") || contains(s, "connection timed out") || contains(s, "i/o timeout") || contains(s, "dial tcp") || contains(s, "connectex:")
+//@ spec func hasConnText(e error) bool = connText(lower(errText(e)))
+// the explicit list above is the table in the code: proved on hasConnectionError below (loop over connectionErrors)
+//@ axiom operr_is_neterr: forall e error :: errorsAs(e, "*net.OpError") ==> errorsAs(e, "net.Error")
+//@ axiom as_val_is_neterr: forall e error :: errorsAs(e, "net.Error") ==> errorsAs(errorsAsVal(e, "net.Error"), "net.Error")
+//@ axiom as_val_subchain: forall e error :: errorsAs(e, "net.Error") && !errorsAs(e, "*ResponseStartedError") ==> !errorsAs(errorsAsVal(e, "net.Error"), "*ResponseStartedError")
+//@ axiom no_ptr_errno: forall e error :: !errorsAs(e, "*syscall.Errno")
+//@ spec func connErr(e error) bool = e != nil && !errorsAs(e, "*ResponseStartedError") && (errorsAs(e, "net.Error") || (errorsAs(e, "syscall.Errno") && (errorsAsVal(e, "syscall.Errno") == syscall.ECONNREFUSED || errorsAsVal(e, "syscall.Errno") == syscall.ECONNRESET || errorsAsVal(e, "syscall.Errno") == syscall.ECONNABORTED)) || hasConnText(e))
 //@ spec func circuitOpen(e error) bool = errorsIs(e, ErrCircuitOpen)
 //@ spec func finalErr(e error) bool
 //@ spec func uniqueNames(xs []*domain.Endpoint) bool = forall ua int, ub int :: 0 <= ua && ua < ub && ub < len(xs) ==> xs[ua].Name != xs[ub].Name
 
 //@ func IsConnectionError
 //@   property C02 C04
-//@   defines res == connErr(err)
-//@   ensures err == nil ==> !res
-//@   ensures err != nil && errorsAs(err, "net.Error") ==> res
+//@   ensures res == connErr(err)
 
 //@ functype ProxyFunc
 //@   modifies *
@@ -88,7 +93,9 @@ package core
 
 //@ func hasConnectionError
 //@   property C02 C04
-//@   ensures err == nil ==> !res
+//@   loop 1 invariant forall pi int :: 0 <= pi && pi < i$1 ==> !contains(errStr, connectionErrors[pi])
+//@   ensures len(connectionErrors) == 9
+//@   ensures res == (err != nil && hasConnText(err))
 
 //@ func (h *RetryHandler) handleConnectionFailure
 //@   property C03 C04
